@@ -1,5 +1,6 @@
 import ZChain.Proofs.DKG
 import ZChain.Model.VRF
+import ZChain.Generated.C33
 import Mathlib.Algebra.Field.ZMod
 /-!
 # C33 — All miners derive the same round random seed
@@ -347,6 +348,40 @@ example : (runDeliveries exDkg 2 0 [exDel 0 0 4 true, exDel 1 1 2 true, exDel 1 
 example : (runDeliveries exDkg 2 0 [exDel 0 0 4 true, exDel 1 1 2 true]).groupSig = none := by decide
 -- a share parked before the message is available is verified and counted on the next delivery
 example : (runDeliveries exDkg 2 0 [exDel 1 0 2 false, exDel 0 0 4 true]).shares.length = 1 := by decide
+/-- two SWAPPED shares (each the other party's valid share) parked in the cache are both refused when the cache is
+flushed — although their sum is the sum of the two valid shares: shares are verified one by one.
+2-of-2 over `ZMod 7`: polynomials 3+x and 4+x for ids 1, 2; group keys 2 and 4; message point 1. -/
+def exDkg2 : Party Z7 :=
+  { t := 2, n := 2, id := 1, msk := [3, 1], recv := [], si := 0, gmpk := [(1, 2), (2, 4)] }
+example : DkgFrom exDkg2 2 [(1, [3, 1]), (2, [4, 1])] := ⟨rfl, by decide, by decide, by decide⟩
+example :
+    let r := runDeliveries exDkg2 1 0 [exDel 0 0 4 false, exDel 1 0 2 false, exDel 0 0 2 true]
+    r.shares.map (·.party) = [0] ∧ r.cache.length = 2 ∧ r.groupSig = none := by decide
 end Examples
+
+/-! ## where the threshold comes from, how cached shares are verified (table generated by `harness/cmd/xc33`)
+
+The model's threshold is `dkg.t` — the T of the DKG whose sharing polynomial has `t` coefficients: `seed_agreement` needs
+at least that many verified shares. In the code the count must therefore be the T of the DKG in force (`dkg.T`), not
+the T of whatever magic block is known for the round (a newer magic block may be known without a DKG). And every share
+that leaves the cache must pass `verifyVRFShare` on its own: a single aggregate check over the cached shares would let
+two shares with cancelling errors through (`Props/C32` `agg_cancellation`). -/
+section Sites
+open ZChain.Generated.C33
+
+def thresholdsOf (f : String) : Option (List String) := (thresholds.find? (·.1 == f)).map (·.2)
+def callsOf (f : String) : Option (List String) := (calls.find? (·.1 == f)).map (·.2)
+
+theorem threshold_sites_expected :
+    thresholdsOf "AddVRFShare" = some ["blsThreshold = dkg.T"] ∧
+    thresholdsOf "verifyCachedVRFShares" = some ["blsThreshold = dkg.T"] ∧
+    thresholdsOf "GetBlsThreshold" = some ["return mc.GetDKG(round).T"] ∧
+    thresholdsOf "ThresholdNumBLSSigReceived" = some [] ∧
+    callsOf "AddVRFShare" = some ["GetDKG", "verifyCachedVRFShares", "verifyVRFShare", "AddVRFShare", "ThresholdNumBLSSigReceived"] ∧
+    callsOf "verifyCachedVRFShares" = some ["verifyVRFShare", "AddVRFShare"] ∧
+    callsOf "verifyVRFShare" = some ["VerifySignature"] ∧
+    callsOf "ThresholdNumBLSSigReceived" = some ["GetDKG", "CalBlsGpSign"] := by
+  decide
+end Sites
 
 end ZChain.VRF
